@@ -544,6 +544,33 @@ type Guard struct {
 	// Derived: not a test on the path itself but implied by the answer of
 	// a helper call tested on it (see derivedGuards)
 	Derived bool
+	// Via: for a derived guard, the helper calls it was derived through,
+	// innermost first; Resolve maps a value of the helper's frame (one of
+	// its parameters) to the argument at that call
+	Via []*ssa.Call
+}
+
+// Resolve: a value appearing in a derived guard, expressed in the frame of
+// the function whose block the guard was computed for: parameters of the
+// helpers the guard was derived through become the arguments they were
+// called with.
+func (g Guard) Resolve(v ssa.Value) ssa.Value {
+	for _, call := range g.Via {
+		p, ok := stripLocal(v).(*ssa.Parameter)
+		if !ok {
+			return v
+		}
+		h := call.Common().StaticCallee()
+		if h == nil || p.Parent() != h {
+			return v
+		}
+		for i, q := range h.Params {
+			if q == p && i < len(call.Common().Args) {
+				v = call.Common().Args[i]
+			}
+		}
+	}
+	return v
 }
 
 // guardsOf returns the conditions whose then/else edge dominates block b.
@@ -910,6 +937,7 @@ func derivedGuards(gs []Guard) []Guard {
 		}
 		for i := range d {
 			d[i].Derived = true
+			d[i].Via = append(append([]*ssa.Call{}, d[i].Via...), call)
 		}
 		derivedMemo[key] = d
 		out = append(out, d...)
@@ -2129,4 +2157,67 @@ func onEveryPath(in ssa.Instruction) bool {
 		}
 	}
 	return true
+}
+
+// flowsFromField: v is computed from a load of the named field - through
+// calls (any argument), locals, slices, arithmetic, conversions and phis.
+func flowsFromField(v ssa.Value, field string) bool {
+	seen := map[ssa.Value]bool{}
+	var walk func(v ssa.Value, depth int) bool
+	walk = func(v ssa.Value, depth int) bool {
+		if v == nil || depth > 14 || seen[v] {
+			return false
+		}
+		seen[v] = true
+		if f, _ := fieldLoad(v); f != nil && f.Name() == field {
+			return true
+		}
+		switch x := v.(type) {
+		case *ssa.UnOp:
+			return walk(x.X, depth+1)
+		case *ssa.FieldAddr:
+			if f := fieldOfAddr(x); f != nil && f.Name() == field {
+				return true
+			}
+			return false
+		case *ssa.Slice:
+			return walk(x.X, depth+1)
+		case *ssa.IndexAddr:
+			return walk(x.X, depth+1)
+		case *ssa.Index:
+			return walk(x.X, depth+1)
+		case *ssa.Convert:
+			return walk(x.X, depth+1)
+		case *ssa.ChangeType:
+			return walk(x.X, depth+1)
+		case *ssa.MakeInterface:
+			return walk(x.X, depth+1)
+		case *ssa.Extract:
+			return walk(x.Tuple, depth+1)
+		case *ssa.BinOp:
+			return walk(x.X, depth+1) || walk(x.Y, depth+1)
+		case *ssa.Phi:
+			for _, e := range x.Edges {
+				if walk(e, depth+1) {
+					return true
+				}
+			}
+		case *ssa.Call:
+			for _, a := range x.Common().Args {
+				if walk(a, depth+1) {
+					return true
+				}
+			}
+		case *ssa.Alloc:
+			if x.Referrers() != nil {
+				for _, ref := range *x.Referrers() {
+					if st, ok := ref.(*ssa.Store); ok && st.Addr == ssa.Value(x) && walk(st.Val, depth+1) {
+						return true
+					}
+				}
+			}
+		}
+		return false
+	}
+	return walk(v, 0)
 }
